@@ -769,6 +769,15 @@ def _diagline_dist_missingvalues(
         n_time, hist, R, E_null, 0, 0, metric_null, True, M, True,
         i2J_diagline, ij2I_diagline, True)
 
+def _white_vertline_dist_missingvalues(
+        int n_time, ndarray[NODE_t, ndim=1] hist, ndarray[LAG_t, ndim=2] R,
+        ndarray[MASK_t, ndim=1, cast=True] M):
+    cdef:
+        ndarray[DFIELD_t, ndim=2] E_null = np.array([[]], dtype=DFIELD)
+    _line_dist(
+        n_time, hist, R, E_null, 0, 0, metric_null, False, M, True,
+        i2J_vertline, ij2I_vertline, False)
+
 def _vertline_dist_sequential_missingvalues(
         int n_time, ndarray[NODE_t, ndim=1] hist,
         ndarray[MASK_t, ndim=1, cast=True] M,
